@@ -1,0 +1,33 @@
+//go:build verif
+// +build verif
+
+package vbft
+
+import (
+	vconfig "github.com/polynetwork/poly/consensus/vbft/config"
+	"github.com/polynetwork/poly/core/types"
+)
+
+// VerifUpdateParticipantConfig runs the real Server.updateParticipantConfig - the entry point that selects the
+// participants at the start of every round - on a bare server (index self, chain config cfg in force in Server.config)
+// whose block pool holds `sealed` as the last sealed block; the round is sealed.Height+1.
+// ok is false when no participant config was installed (updateParticipantConfig keeps the previous one, here none).
+func VerifUpdateParticipantConfig(self uint32, cfg *vconfig.ChainConfig, sealed *types.Block) (round uint32, vrf vconfig.VRFValue,
+	proposers, endorsers, committers []uint32, ok bool, err error) {
+	blk, err := initVbftBlock(sealed)
+	if err != nil {
+		return 0, vconfig.VRFValue{}, nil, nil, nil, false, err
+	}
+	srv := &Server{Index: self, config: cfg}
+	srv.stateMgr = &StateMgr{server: srv}
+	srv.chainStore = &ChainStore{chainedBlockNum: blk.getBlockNum() - 1, pendingBlocks: make(map[uint32]*PendingBlock)}
+	srv.blockPool = &BlockPool{server: srv, HistoryLen: 64, chainStore: srv.chainStore,
+		candidateBlocks: map[uint32]*CandidateInfo{blk.getBlockNum(): {SealedBlock: blk}}}
+	srv.currentBlockNum = blk.getBlockNum() + 1
+	err = srv.updateParticipantConfig()
+	pc := srv.currentParticipantConfig
+	if pc == nil {
+		return srv.currentBlockNum, vconfig.VRFValue{}, nil, nil, nil, false, err
+	}
+	return pc.BlockNum, pc.Vrf, pc.Proposers, pc.Endorsers, pc.Committers, true, err
+}
